@@ -230,6 +230,23 @@ fn post_checks(w: &World, dir_ids: &[Uuid], scen: &str, problems: &mut Vec<(Stri
 		}
 	}
 	q!("retrieve_summary_info(refresh)", a.info(true, 1).is_ok());
+	// the next key an account hands out lies beyond every key a stored output already uses
+	// (otherwise the next operation overwrites that record: a silent loss)
+	{
+		let accts: Vec<(String, crate::keychain::Identifier)> = a.with(|b| b.acct_path_iter().map(|m| (m.label, m.path)).collect());
+		for (label, path) in accts.iter() {
+			let idx = a.with(|b| b.current_child_index(path)).unwrap_or(0);
+			let max_used = outs.iter().filter(|o| o.key_id.parent_path() == *path && o.mmr_index.is_none()).map(|o| o.n_child).max();
+			if let Some(m) = max_used {
+				if idx <= m {
+					problems.push((
+						format!("key-index-behind-stored-output/{}", scen),
+						format!("account {} will derive child {} next, but a stored output already uses child {}", label, idx, m),
+					));
+				}
+			}
+		}
+	}
 	// accounts other than the active one hold entries too (self-send)
 	let live_sent: Vec<_> = txs.iter().filter(|t| t.tx_type == TxLogEntryType::TxSent && !t.confirmed).collect();
 	// (2) every reserved output belongs to a live logged transaction
